@@ -72,4 +72,56 @@ theorem run_bad_none_iff (md5 : List Nat → List Nat) (b : BmcCfg) (ds : List (
     · rintro ⟨h1, h2, h3⟩
       exact ⟨by rw [hs.1 h2]; exact h1, h3⟩
 
+theorem stepOk_stepLost (md5 : List Nat → List Nat) (b : BmcCfg) (st : BmcState) (d : List Nat) :
+    StepOk st (stepLost md5 b st d) := by
+  have h := stepOk_step md5 b st d
+  unfold stepLost
+  rcases hs : step md5 b st d with ⟨st', v⟩
+  rw [hs] at h
+  cases v with
+  | protocolError w => exact h
+  | reply r =>
+    simp only
+    split
+    · exact stepOk_reply _ _ _ rfl
+    · exact stepOk_reply _ _ _ rfl
+
+/-- one datagram on the wire: verdict and next monitor state -/
+def wireStep (md5 : List Nat → List Nat) (b : BmcCfg) (st : BmcState) (x : Bool × List Nat) : BmcState × Verdict :=
+  if x.1 then stepLost md5 b st x.2 else step md5 b st x.2
+
+/-- the verdicts over everything transmitted -/
+def verdictsWire (md5 : List Nat → List Nat) (b : BmcCfg) : BmcState → List (Bool × List Nat) → List Verdict
+  | _, [] => []
+  | st, x :: xs => (wireStep md5 b st x).2 :: verdictsWire md5 b (wireStep md5 b st x).1 xs
+
+theorem runWire_cons (md5 : List Nat → List Nat) (b : BmcCfg) (st : BmcState) (x : Bool × List Nat)
+    (xs : List (Bool × List Nat)) : runWire md5 b st (x :: xs) = runWire md5 b (wireStep md5 b st x).1 xs := by
+  obtain ⟨l, d⟩ := x
+  cases l <;> simp [runWire, wireStep]
+
+/-- "No protocol error" over the wire can be read off the final monitor state, lost datagrams
+included: `bad` is empty at the end iff it was at the start and no datagram was flagged. -/
+theorem runWire_bad_none_iff (md5 : List Nat → List Nat) (b : BmcCfg) (w : List (Bool × List Nat)) :
+    ∀ st, (runWire md5 b st w).bad = none ↔
+      st.bad = none ∧ (verdictsWire md5 b st w).all Verdict.isReply = true := by
+  induction w with
+  | nil => intro st; simp [runWire, verdictsWire]
+  | cons x xs ih =>
+    intro st
+    have hs : StepOk st (wireStep md5 b st x) := by
+      unfold wireStep; split
+      · exact stepOk_stepLost md5 b st x.2
+      · exact stepOk_step md5 b st x.2
+    rw [runWire_cons]
+    simp only [verdictsWire, List.all_cons, Bool.and_eq_true]
+    rw [ih]
+    constructor
+    · rintro ⟨h1, h2⟩
+      cases hr : (wireStep md5 b st x).2.isReply
+      · exact absurd h1 (hs.2 hr)
+      · exact ⟨by rw [← hs.1 hr]; exact h1, rfl, h2⟩
+    · rintro ⟨h1, h2, h3⟩
+      exact ⟨by rw [hs.1 h2]; exact h1, h3⟩
+
 end PyIpmi.Spec.BmcSession
